@@ -32,6 +32,26 @@ func verifC20NativeRun(st *verifC20Cmd) ([]byte, error) {
 		exe = "/nonexistent/verif-tool"
 	}
 	e := &cmdExecution{cmd: exe, args: []string{"-c", script}, stdin: "script", combineOutput: st.combined}
+	if st.pipeCap < 6 {
+		// the small-pipe case of the model: natively a script larger than any pipe buffer
+		e.stdin = strings.Repeat("x", 1<<20)
+		type res struct {
+			out []byte
+			err error
+		}
+		ch := make(chan res, 1)
+		go func() {
+			out, err := e.run()
+			ch <- res{out, err}
+		}()
+		select {
+		case r := <-ch:
+			return r.out, r.err
+		case <-time.After(10 * time.Second):
+			verifCheck(false, "tool-never-started-because-the-stdin-pipe-is-full")
+			return nil, fmt.Errorf("hang")
+		}
+	}
 	return e.run()
 }
 
@@ -99,7 +119,7 @@ func verifC10NativeRaces() {
 	verifReach("race-analysis-done")
 }
 
-func verifC20NativeSchedule() {
+func verifC20NativeSchedule(fail bool) {
 	tmp, err := os.MkdirTemp("", "verif-c20s-")
 	if err != nil {
 		panic(err)
@@ -116,9 +136,14 @@ func verifC20NativeSchedule() {
 	must(os.MkdirAll(filepath.Join(tmp, "r", ".git"), 0o755))
 	tool := filepath.Join(tmp, "tool.sh")
 	script := "#!/bin/sh\ncat >/dev/null\nm=" + state + "/alive.$$\n: > $m\nls " + state + " | grep -c '^alive' >> " + state + "/counts\nsleep 0.3\nrm -f $m\necho x >> " + state + "/finished\necho '[]'\n"
+	if fail {
+		// shellcheck answers quickly with something that is not JSON; pyflakes stays alive for a while
+		script = "#!/bin/sh\ncat >/dev/null\nm=" + state + "/alive.$$\n: > $m\nsleep 0.05\nrm -f $m\necho x >> " + state + "/finished\necho 'this is not JSON'\n"
+	}
 	must(os.WriteFile(tool, []byte(script), 0o755))
 	pytool := filepath.Join(tmp, "pytool.sh")
-	must(os.WriteFile(pytool, []byte(strings.Replace(script, "echo '[]'\n", "", 1)), 0o755))
+	pyscript := "#!/bin/sh\ncat >/dev/null\nm=" + state + "/alive.$$\n: > $m\nls " + state + " | grep -c '^alive' >> " + state + "/counts\nsleep 0.3\nrm -f $m\necho x >> " + state + "/finished\n"
+	must(os.WriteFile(pytool, []byte(pyscript), 0o755))
 	cpus := runtime.NumCPU()
 	var args []string
 	for f := 0; f < 3; f++ {
@@ -139,8 +164,12 @@ func verifC20NativeSchedule() {
 	}()
 	select {
 	case r := <-ch:
-		verifCheck(r.err == nil, "lint-failed")
-		verifCheck(len(r.errs) == 0, "unexpected-diagnostics")
+		if fail {
+			verifCheck(r.err != nil, "tool-failure-or-garbage-silently-dropped")
+		} else {
+			verifCheck(r.err == nil, "lint-failed")
+			verifCheck(len(r.errs) == 0, "unexpected-diagnostics")
+		}
 	case <-time.After(120 * time.Second):
 		verifCheck(false, "deadlock")
 		return
@@ -155,7 +184,12 @@ func verifC20NativeSchedule() {
 		}
 	}
 	fin, _ := os.ReadFile(filepath.Join(state, "finished"))
-	verifCheck(alive == 0 && strings.Count(string(fin), "x") == 3*cpus, "results-returned-before-every-tool-goroutine-finished")
+	if fail {
+		// some scripts may never have been started; none may be alive
+		verifCheck(alive == 0, "results-returned-before-every-tool-goroutine-finished")
+	} else {
+		verifCheck(alive == 0 && strings.Count(string(fin), "x") == 3*cpus, "results-returned-before-every-tool-goroutine-finished")
+	}
 	cnt, _ := os.ReadFile(filepath.Join(state, "counts"))
 	max := 0
 	for _, ln := range strings.Fields(string(cnt)) {
